@@ -95,7 +95,7 @@ def cli_metadata(path_screen, d):
     old = sys.argv
     sys.argv = ["extract_screen_metadata", "--screen", path_screen, "--output", out]
     try:
-        extract_screen_metadata.main()
+        common.run_cli_main(extract_screen_metadata, sys.argv)
     finally:
         sys.argv = old
     j = json.load(open(out))
@@ -109,7 +109,7 @@ def cli_reveal(path_in, path_out, ids):
     old = sys.argv
     sys.argv = ["reveal_plate", "--screen", path_in, "--output", path_out, "--plate-id"] + [str(int(i)) for i in ids]
     try:
-        reveal_plate.main()
+        common.run_cli_main(reveal_plate, sys.argv)
     finally:
         sys.argv = old
 
